@@ -91,6 +91,7 @@ type Machine struct {
 	notes map[string]bool
 
 	cfree          map[*Term]string
+	klen           map[*Term]int
 	yieldRequested bool
 	progress       int
 	side  map[string]Value
